@@ -19,6 +19,7 @@ import (
 
 type vhSyncLedger struct {
 	height uint32
+	hh     uint32
 }
 
 func (l *vhSyncLedger) AddHeaders(...*block.Header) error                { return nil }
@@ -27,7 +28,7 @@ func (l *vhSyncLedger) IsHardforkEnabled(*config.Hardfork, uint32) bool  { retur
 func (l *vhSyncLedger) GetConfig() config.Blockchain                     { return config.Blockchain{} }
 func (l *vhSyncLedger) GetHeader(util.Uint256) (*block.Header, error)    { return nil, errors.New("no header") }
 func (l *vhSyncLedger) GetHeaderHash(uint32) util.Uint256                { return util.Uint256{} }
-func (l *vhSyncLedger) HeaderHeight() uint32                             { return 0 } // headers not fetched yet
+func (l *vhSyncLedger) HeaderHeight() uint32                             { return l.hh } // headers fetched so far (never beyond the sync point here)
 func (l *vhSyncLedger) NativePolicyID() int32                            { return -7 }
 func (l *vhSyncLedger) VerifyWitness(util.Uint160, hash.Hashable, *transaction.Witness, int64) (int64, error) {
 	return 0, nil
@@ -35,7 +36,7 @@ func (l *vhSyncLedger) VerifyWitness(util.Uint160, hash.Hashable, *transaction.W
 
 //vf:tier quick
 //vf:unwind 32
-//vf:bound remote height, local block height and stored sync point any uint32 with remote < 2^31; sync interval from {1, 2, 4, 1024, 40000}; stored point present or absent; header height 0 (headers not fetched yet)
+//vf:bound remote height, local block height and stored sync point any uint32 with remote < 2^31; sync interval from {1, 2, 4, 1024, 40000}; stored point present or absent; header height on (re)start any value from the local block height up to the chosen point
 func VF_C20_sync_point_choice() {
 	remote := vfU32("remote")
 	vfAssume(remote < 1<<31)
@@ -50,7 +51,16 @@ func VF_C20_sync_point_choice() {
 		vfAssume(pOld%I == 0 && pOld <= remote)
 		d.PutStateSyncPoint(pOld)
 	}
-	bc := &vhSyncLedger{height: local}
+	// header height on (re)start: anything up to the point that will be chosen (the header
+	// fetching stage is then not finished and must simply be resumed)
+	p0 := remote / I * I
+	expect := p0
+	if hasOld && pOld >= p0-I {
+		expect = pOld
+	}
+	hh := vfU32("header-height")
+	vfAssume(hh >= local && hh <= expect)
+	bc := &vhSyncLedger{height: local, hh: hh}
 	s := &Module{
 		log:          zap.NewNop(),
 		syncInterval: I,
@@ -77,6 +87,7 @@ func VF_C20_sync_point_choice() {
 		vfAssert(err == nil && s.syncPoint == p, "fresh-node-takes-latest-point")
 	}
 	if err == nil && s.syncStage != inactive {
+		vfAssert(s.syncStage&headersSynced == 0, "headers-not-past-the-point=>header-stage-resumed")
 		vfAssert(s.syncPoint <= remote, "point-not-above-remote-height")
 		vfAssert(s.syncPoint%I == 0, "point-is-a-multiple-of-the-interval")
 		got, gerr := d.GetStateSyncPoint()
